@@ -17,6 +17,7 @@ import VotelibProofs.Lemmas.ConvertImages
 import VotelibProofs.Lemmas.ConvertPositional
 import VotelibProofs.Lemmas.ConvertCondorcet
 import VotelibProofs.Lemmas.ConvertMisc
+import VotelibProofs.Lemmas.ConvertScore
 namespace VL.C13
 open VL VL.Convert
 
@@ -626,6 +627,22 @@ theorem scoreToRanked_additive_none (p₁ p₂ : SProfile) (k : Ballot) :
   rw [this _ (p₁ ++ p₂), this _ p₁, this _ p₂]
   exact scoreToRanked_additive none [] p₁ p₂ k
 
+/-- **single-ballot image**: the ranking lists exactly the candidates of the ballot (plus, with
+    `unscored_value`, the unscored candidates of the universe at that value), x stands strictly above y
+    iff x is scored higher than y (equal scores share a rank), and — when each candidate is scored once —
+    every candidate is listed exactly once -/
+theorem scoreToRanked_image (uv : Option Rat) (U : List Cand) (v : ScoreBallot) :
+    (∀ c, c ∈ ballotCands (scoreToRankedOne uv U v) ↔ ∃ s, (c, s) ∈ augment uv U v) ∧
+    (∀ x y, Above (scoreToRankedOne uv U v) x y
+      ↔ ∃ sx sy, (x, sx) ∈ augment uv U v ∧ (y, sy) ∈ augment uv U v ∧ sy < sx) ∧
+    (((augment uv U v).map (·.1)).Nodup → (ballotCands (scoreToRankedOne uv U v)).Nodup) :=
+  ⟨mem_scoreToRankedOne uv U v, above_scoreToRankedOne uv U v, nodup_scoreToRankedOne uv U v⟩
+
+/-- what the augmented ballot contains -/
+theorem scoreToRanked_augment (uv : Option Rat) (U : List Cand) (v : ScoreBallot) (c : Cand) (s : Rat) :
+    (c, s) ∈ augment uv U v ↔ (c, s) ∈ v ∨ (uv = some s ∧ c ∈ U ∧ ∀ s', (c, s') ∉ v) :=
+  mem_augment uv U v c s
+
 theorem scoreToRanked_weight_conserved (uv : Option Rat) (U : List Cand) (p : SProfile) :
     total (scoreToRankedU uv U p) = total p := by
   rw [scoreToRanked_eq_accum, accumOne_total, ← wsum_one]; simp
@@ -865,6 +882,34 @@ theorem individualToParty_additive_merged (aff : Cand → Option Nat) (ind : Ind
   obtain ⟨d₁, hd₁, _, hs₁, _⟩ := individualToParty_sum aff ind p₁ (fun he cw hcw => h he cw (List.mem_append_left _ hcw))
   obtain ⟨d₂, hd₂, _, hs₂, _⟩ := individualToParty_sum aff ind p₂ (fun he cw hcw => h he cw (List.mem_append_right _ hcw))
   exact ⟨d, d₁, d₂, hd, hd₁, hd₂, fun k => by rw [hs, hs₁, hs₂, wsum_mergeDict, wsum_append]⟩
+
+/-! ## GroupVotesByParty -/
+
+/-- the groups hold exactly the kept candidates with their votes, each once, under the party the mapper
+    assigns (read as the list of (party, candidate, votes) entries, up to order); parties are listed once -/
+theorem groupByParty_image (aff : Cand → Option Nat) (ind : Independents) (p : Dict Cand)
+    (hp : (dkeys p).Nodup) (h : PartyOK aff ind p) :
+    ∃ G, groupByParty aff ind p = .ok G ∧ (dkeys G).Nodup ∧
+      (flatGroups G).Perm (p.filterMap (partyEntry aff ind)) := by
+  refine ⟨_, groupByParty_eq_ok aff ind p h, nodup_dkeys_groupFold aff ind p [] (by simp [dkeys]), ?_⟩
+  have := flatGroups_foldl aff ind p [] hp (by simp [flatGroups])
+  simpa [flatGroups] using this
+
+/-- additivity across halves with disjoint candidates (the nested result cannot add two counts of the
+    same candidate: it stores, it does not accumulate) -/
+theorem groupByParty_additive_disjoint (aff : Cand → Option Nat) (ind : Independents) (p₁ p₂ : Dict Cand)
+    (hp : (dkeys (p₁ ++ p₂)).Nodup) (h : PartyOK aff ind (p₁ ++ p₂)) :
+    ∃ G G₁ G₂, groupByParty aff ind (p₁ ++ p₂) = .ok G ∧ groupByParty aff ind p₁ = .ok G₁ ∧
+      groupByParty aff ind p₂ = .ok G₂ ∧ (flatGroups G).Perm (flatGroups G₁ ++ flatGroups G₂) := by
+  have hp' := hp
+  simp only [dkeys, List.map_append] at hp'
+  rw [List.nodup_append] at hp'
+  obtain ⟨G, hG, _, hf⟩ := groupByParty_image aff ind _ hp h
+  obtain ⟨G₁, hG₁, _, hf₁⟩ := groupByParty_image aff ind p₁ hp'.1 (fun he cw hcw => h he cw (List.mem_append_left _ hcw))
+  obtain ⟨G₂, hG₂, _, hf₂⟩ := groupByParty_image aff ind p₂ hp'.2.1 (fun he cw hcw => h he cw (List.mem_append_right _ hcw))
+  refine ⟨G, G₁, G₂, hG, hG₁, hG₂, ?_⟩
+  rw [List.filterMap_append] at hf
+  exact hf.trans (hf₁.symm.append hf₂.symm)
 
 /-! ## RoundedVotes (per-key image; additive only across disjoint keys) -/
 
